@@ -4343,8 +4343,22 @@ def _parse_simple_lines(
 
 
 def parse(src: str) -> Program:
-    """Parse ``src`` into a :class:`~Reduino.transpile.ast.Program`."""
+    """Parse ``src`` into a :class:`~Reduino.transpile.ast.Program`.
 
+    Unsupported input is reported as :class:`ValueError` (``SyntaxError`` for text
+    that is not Python); that includes expressions nested too deeply to translate
+    and numeric constants that do not fit the target types.
+    """
+
+    try:
+        return _parse_program(src)
+    except RecursionError as exc:
+        raise ValueError("expression is nested too deeply") from exc
+    except OverflowError as exc:
+        raise ValueError(f"numeric constant out of range: {exc}") from exc
+
+
+def _parse_program(src: str) -> Program:
     lines = src.splitlines()
     setup_body: List[object] = []
     loop_body: List[object]  = []
